@@ -475,6 +475,25 @@ def run(ctx, rep):
     if not partial:
         rep.ok("R12.7", "WALRecord::decode", "only exact reads", where=gd.where(gd.entry))
 
+    # ---------------- R12.12 ------------------------------------------------------------
+    rep.rule("R12.12", "the decoder propagates every error of the reads and sub-decodes it performs: no io::Result in the decode cone is "
+                       "turned into a default / Option / bool or left unused (bytes that do not decode would otherwise yield a record whose "
+                       "re-encoding differs from them)")
+    dropped = c09.dropped_results(ctx, gd, Pd)
+    seen_d = set()
+    for n, how in dropped:
+        key = "decode|io-result-dropped:%s" % cpath(gd.term(n)).split("::")[-1]
+        if key in seen_d:
+            continue
+        seen_d.add(key)
+        rep.violation("R12.12", key, cpath(gd.term(n)), "an io::Result produced inside WALRecord::decode is %s: malformed bytes decode to a "
+                      "record instead of an error, and that record does not re-encode to them" % how, where=gd.where(n))
+    if not dropped:
+        rep.ok("R12.12", "io::Result values in the decode cone", "none discarded (.ok()/unwrap_or*/is_ok/is_err on a temporary/unused)",
+               where=gd.where(gd.entry))
+    n_res = len([n for n in Pd.calls(None) if gd.term(n).get("dest_ty", "").startswith("std::result::Result<") and "std::io::Error>" in gd.term(n).get("dest_ty", "")])
+    rep.floor("R12.12", "io::Result-returning calls in the decode cone", n_res, 6)
+
     # ---------------- R12.8 -------------------------------------------------------------
     r12_8(ctx, rep)
     r12_9(ctx, rep)
@@ -612,6 +631,35 @@ def _uncast(e):
     return e
 
 
+def _accessor_summary(ctx, path):
+    """return expression of a crate accessor (by resolved path) in terms of its arguments, or None"""
+    keys = [k for k in ctx.facts.bodies if re.sub(r"::<[^>]*>", "", k) == re.sub(r"::<[^>]*>", "", path)]
+    if len(keys) != 1:
+        return None
+    g = ctx.graph(keys[0])
+    e = _uncast(g.prov_local(g.insts[0], 0))
+    if isinstance(e, tuple) and e and e[0] == "field" and isinstance(e[1], tuple) and e[1][0] == "binop" and e[2] == "0":
+        e = e[1]            # checked arithmetic: (value, overflowed).0
+    return e
+
+
+def _difference_accessor(ctx, g, a0, a1, acc_rx):
+    """a1 = reader.since(a0) where `since(&self, x)` returns `self.F - x` and a0 = reader.acc() returns `self.F`: the node of a1's call"""
+    if not (isinstance(a1, tuple) and a1 and a1[0] == "call" and re.search(acc_rx, a1[1]) and a0[0] == "call" and re.search(acc_rx, a0[1])):
+        return None
+    s0, s1 = _accessor_summary(ctx, a0[1]), _accessor_summary(ctx, a1[1])
+    if not (s0 and s0[0] == "field" and s0[1] == ("arg", 1)):
+        return None
+    if not (s1 and s1[0] == "binop" and s1[1].startswith("Sub") and _uncast(s1[2]) == s0 and _uncast(s1[3])[0] == "arg"):
+        return None
+    k = _uncast(s1[3])[1]
+    if k < 2 or k > len(a1[2]) or _uncast(a1[2][k - 1]) != a0:
+        return None
+    if strip_ids(a1[2][0]) != strip_ids(a0[2][0]):        # the same reader
+        return None
+    return a1[3]
+
+
 def r12_9(ctx, rep):
     """R12.9: the record scan (the Iterator whose next() runs WALRecord::decode on the counting reader) reports, for every decoded record,
     the segment (counter before the decode, counter after - counter before), and yields no error of its own making."""
@@ -650,13 +698,19 @@ def r12_9(ctx, rep):
         ok_shape = (a0[0] == "call" and re.search(acc_rx, a0[1]) and a1[0] == "binop" and a1[1].startswith("Sub")
                     and _uncast(a1[2])[0] == "call" and re.search(acc_rx, _uncast(a1[2])[1]) and _uncast(a1[3]) == a0
                     and _uncast(a1[2])[3] != a0[3] and _uncast(a1[2])[1] == a0[1])
+        c2n = _uncast(a1[2])[3] if ok_shape else None
+        if not ok_shape:
+            # (before, reader.since(before)): the subtraction lives in an accessor of the counting reader
+            d = _difference_accessor(ctx, g, a0, a1, acc_rx)
+            if d is not None:
+                ok_shape, c2n = True, d
         if not ok_shape:
             rep.violation("R12.9", "%s|segment-not-(before, after-before)" % nm_, "%s: Segment::new" % nm_,
                           "the segment yielded with a decoded record is (%s, %s), not (counter before decode, counter after - counter before): "
                           "record offsets/sizes reported by the scan differ from what the decoder consumed"
                           % (expr_s(strip_ids(a[0]))[:60], expr_s(strip_ids(a[1]))[:90]), where=g.where(seg))
         else:
-            c1, c2 = a0[3], _uncast(a1[2])[3]
+            c1, c2 = a0[3], c2n
 
             def step(ms, pi, qi, learn):
                 n = P.gnode(pi)
